@@ -12,15 +12,23 @@ package main
 //   (c) random-walks the full specification (posts, batches, deletes, schema posts,
 //       commit, new version, restart) and prints each behaviour with the expected state
 //       and the expected listing/query reads after every step.
-// This file replays (b) and (c) on the real server and compares; at every new version
+//   (d) model-checks the same invariants plus Inv_StoreIsRead exhaustively on a version DAG
+//       (branch, conflict-free merge by KVRead's read rule, one in-memory database per tracked
+//       branch head / held version, restarts choosing the `inmemory` configuration),
+//   (e) executes seeded scripts of request intentions over such DAGs (c16s.go) and prints the
+//       expected content and reads of every version after every request, and
+//   (f) model-checks the merge claims with client-supplied _user/_time stamps exhaustively.
+// This file replays (b), (c) and (e) on the real server and compares; at every new version
 // and restart it additionally compares the complete read set of the in-memory path with
-// the store path (committed parent holding identical data) resp. the pre-restart answers.
+// the store path (committed parent holding identical data; in (e) the same version after a
+// restart without / with the inmemory configuration) resp. the pre-restart answers.
 
 import (
 	"bytes"
 	"encoding/json"
 	"fmt"
 	"math/rand"
+	"os"
 	"regexp"
 	"sort"
 	"strconv"
@@ -123,6 +131,12 @@ type njCfg struct {
 	SchemaKinds []string
 	NRand       int
 	Emit        bool
+	// version DAG / in-memory configuration / client stamps (defaults: linear history, master head only, no stamps)
+	MaxVers   int
+	Branches  string
+	TrkSets   string
+	StatMax   int
+	StampSets string
 }
 
 func tlaStrSet(a []string) string {
@@ -149,10 +163,35 @@ func (o njCfg) String() string {
 	for i, v := range o.ScalarVals {
 		sv[i] = strconv.Itoa(v)
 	}
-	inv := "Inv_C16_Coherent Inv_C16_MergeRules Inv_TypeOK"
+	inv := "Inv_C16_Coherent Inv_C16_MergeRules Inv_TypeOK Inv_StoreIsRead"
 	if o.Emit {
 		inv += " Emit"
 	}
+	def := func(s, d string) string {
+		if s == "" {
+			return d
+		}
+		return s
+	}
+	maxVers := o.MaxVers
+	if maxVers == 0 {
+		maxVers = o.MaxSteps + 2
+	}
+	dag := fmt.Sprintf(`  MaxVers = %d
+  Branches <- %s
+  TrkSets <- %s
+  StatMax = %d
+  StampSets <- %s
+  NumDocs = 2
+  Constrain <- NoConstrain
+  CField = "a"
+  IntVals = {}
+  ConvTo <- NoConv
+  AtomsOf <- NoAtoms
+  Queries <- NoQueries
+  Projs <- NoProjs
+  EmitAll = FALSE
+`, maxVers, def(o.Branches, "NoBranches"), def(o.TrkSets, "OnlyUntracked"), o.StatMax, def(o.StampSets, "OnlyNoSt"))
 	return fmt.Sprintf(`SPECIFICATION Spec
 CONSTANTS
   NumIds = %d
@@ -169,10 +208,10 @@ CONSTANTS
   Kinds = %s
   SchemaKinds = %s
   NRand = %d
-INVARIANTS %s
+%sINVARIANTS %s
 CHECK_DEADLOCK FALSE
 `, o.NumIds, tlaStrSet(o.Fields), o.NumVals, strings.Join(sv, ", "), o.MaxSteps, tlaBool(o.Record), tlaBool(o.EmitReads),
-		o.Seeds, o.UpdsAt, o.Pick, strings.Join(cs, ", "), tlaStrSet(o.Kinds), tlaStrSet(o.SchemaKinds), o.NRand, inv)
+		o.Seeds, o.UpdsAt, o.Pick, strings.Join(cs, ", "), tlaStrSet(o.Kinds), tlaStrSet(o.SchemaKinds), o.NRand, dag, inv)
 }
 
 func njParse(out string) []*njBehaviour {
@@ -192,7 +231,7 @@ func njExhaustive(c *Ctx, o njCfg, timeout time.Duration) *tlc.Result {
 	var r *tlc.Result
 	for try := 0; try < 2; try++ {
 		r = c.RunTLC(tlc.Opts{Module: "NeuronJSON_mc", Config: "gen_nj.cfg",
-			Files: map[string][]byte{"gen_nj.cfg": []byte(o.String())}, Timeout: timeout, HeapGB: 12})
+			Files: map[string][]byte{"gen_nj.cfg": []byte(o.String())}, Timeout: timeout, HeapGB: 8})
 		if r.OK {
 			return r
 		}
@@ -1212,6 +1251,17 @@ func njOpKey(b *njBehaviour) string {
 func checkC16(c *Ctx) int {
 	run := ev.NewRun("C16", c.Tier, "model_checking")
 	t0 := time.Now()
+	if os.Getenv("VERIF_C16_PART") == "scripts" { // development aid: the scripted DAG part alone (evidence marked partial)
+		var nreq, ncmp, nchk int64
+		sr := njScriptedReplay(c, run, njScriptedGen(c), &nreq, &ncmp, &nchk)
+		run.Set("partial", "scripts only")
+		run.Set("states", sr.states)
+		run.Set("transitions", sr.trans)
+		run.Set("traces_validated_against_impl", int64(sr.scripts))
+		run.Set("tlc_model", []string{sr.model})
+		fmt.Printf("C16 (scripts only): %s; %d requests, %d comparisons, %d checkpoints in %.1fs; violations=%d\n", sr.model, nreq, ncmp, nchk, since(t0), run.Violations())
+		return run.Finish()
+	}
 	var states, trans int64
 	var nreq, ncmp, ncheckpoints int64
 	var models []string
@@ -1219,10 +1269,14 @@ func checkC16(c *Ctx) int {
 	fields3 := []string{"a", "b", "c"}
 
 	// (a) exhaustive model check of coherence and the merge claims (no history)
-	mc := njCfg{NumIds: 2, Fields: fields2, NumVals: 2, ScalarVals: []int{1, 2}, MaxSteps: c.pick(3, 4), Record: false,
+	// (quick: one value -- the value-dependent merge claims are checked on the decision table's state space below;
+	// the version bookkeeping of the DAG specification makes this state space larger than the linear one was)
+	// thorough: two values x <= 3 requests and, below, one value x <= 4 requests (two values x 4 requests cost
+	// more than 100 CPU-minutes with the DAG bookkeeping in the state)
+	mc := njCfg{NumIds: 2, Fields: fields2, NumVals: c.pick(1, 2), ScalarVals: [][]int{{1}, {1, 2}}[c.pick(0, 1)], MaxSteps: 3, Record: false,
 		Seeds: "EmptySeeds", UpdsAt: "AllUpdsAt", Pick: "PickAll", CondSets: [][]string{{"a"}},
 		Kinds: []string{"post", "batch", "del", "commit", "newver", "restart", "schema"}, SchemaKinds: []string{"schema"}}
-	var mcRes *tlc.Result
+	var mcRes, mcRes2 *tlc.Result
 	var wg sync.WaitGroup
 	wg.Add(1)
 	var mcPanic interface{}
@@ -1230,6 +1284,50 @@ func checkC16(c *Ctx) int {
 		defer wg.Done()
 		defer func() { mcPanic = recover() }()
 		mcRes = njExhaustive(c, mc, 30*time.Minute)
+		if c.thorough() {
+			mc2 := mc
+			mc2.NumVals, mc2.ScalarVals, mc2.MaxSteps = 1, []int{1}, 4
+			mcRes2 = njExhaustive(c, mc2, 30*time.Minute)
+		}
+	}()
+
+	// (d) exhaustive model check of the version DAG: branches, merges, tracked branch heads and committed
+	// versions held in memory, restarts that change the `inmemory` configuration
+	dcfg := njCfg{NumIds: 1, Fields: []string{"a"}, NumVals: 1, ScalarVals: []int{1}, MaxSteps: c.pick(9, 11), Record: false,
+		Seeds: "EmptySeeds", UpdsAt: "AllUpdsAt", Pick: "PickAll", CondSets: [][]string{{"a"}},
+		Kinds: []string{"post", "del", "commit", "newver", "branch", "merge", "restart"}, SchemaKinds: []string{},
+		MaxVers: 5, Branches: "OneBranch", TrkSets: "TrkChoices", StatMax: 1}
+	var dagRes *tlc.Result
+	var dagPanic interface{}
+	wg.Add(1)
+	go func() {
+		defer wg.Done()
+		defer func() { dagPanic = recover() }()
+		dagRes = njExhaustive(c, dcfg, 40*time.Minute)
+	}()
+
+	// (f) the merge claims with client-supplied stamps: every seeded state of one annotation x every POST
+	// (update x stamp function x mode) x a second one, exhaustively (model level only; replayed by the scripts)
+	stcfg := njCfg{NumIds: 1, Fields: fields2, NumVals: 2, ScalarVals: []int{1, 2}, MaxSteps: c.pick(2, 3), Record: false,
+		Seeds: "TableSeeds", UpdsAt: "AllUpdsAt", Pick: "PickAll", CondSets: [][]string{{"a"}},
+		Kinds: []string{"post"}, SchemaKinds: []string{}, StampSets: "AllSt"}
+	var stRes *tlc.Result
+	var stPanic interface{}
+	wg.Add(1)
+	go func() {
+		defer wg.Done()
+		defer func() { stPanic = recover() }()
+		stRes = njExhaustive(c, stcfg, 30*time.Minute)
+	}()
+
+	// (e) scripted behaviours: generated and evaluated by TLC while the decision table is replayed
+	var sg *njsGen
+	var sgPanic interface{}
+	sgDone := make(chan struct{})
+	go func() {
+		defer close(sgDone)
+		defer func() { sgPanic = recover() }()
+		sg = njScriptedGen(c)
 	}()
 
 	// (c) random walks of the full specification (generated while the decision table is replayed)
@@ -1343,14 +1441,42 @@ func checkC16(c *Ctx) int {
 		run.Sample(map[string]interface{}{"history": hists[0].Hist, "expected_reads_last_step": hists[0].Reads[len(hists[0].Reads)-1]})
 	}
 
+	// (e) scripted behaviours over a version DAG with `inmemory` configurations (c16s.go)
+	<-sgDone
+	if sgPanic != nil {
+		panic(sgPanic)
+	}
+	sr := njScriptedReplay(c, run, sg, &nreq, &ncmp, &ncheckpoints)
+	states += sr.states
+	trans += sr.trans
+	models = append(models, sr.model)
+
 	wg.Wait()
 	if mcPanic != nil {
 		panic(mcPanic)
 	}
+	if dagPanic != nil {
+		panic(dagPanic)
+	}
+	if stPanic != nil {
+		panic(stPanic)
+	}
+	states += stRes.Distinct
+	trans += stRes.Generated
+	models = append(models, fmt.Sprintf("exhaustive Inv_C16_MergeRules with client-supplied stamps: every seeded state of 1 annotation x fields %v x 2 values x every POST (update x which of <f>_user/<f>_time are supplied x plain/replace/conditionals), sequences of <= %d: %d distinct states", stcfg.Fields, stcfg.MaxSteps, stRes.Distinct))
+	states += dagRes.Distinct
+	trans += dagRes.Generated
+	models = append(models, fmt.Sprintf("exhaustive version DAG (Inv_C16_Coherent with one database per tracked head / held version, Inv_StoreIsRead, Inv_C16_MergeRules): 1 id x field a x 1 value, <= %d versions, master + branch b1, all sequences of <= %d requests (post, delete, commit, new version, branch, conflict-free merge, restart choosing the inmemory configuration): %d distinct states, depth %d",
+		dcfg.MaxVers, dcfg.MaxSteps, dagRes.Distinct, dagRes.Depth))
 	states += mcRes.Distinct
 	trans += mcRes.Generated
-	models = append(models, fmt.Sprintf("exhaustive Inv_C16_Coherent/Inv_C16_MergeRules: 2 ids x fields %v x 2 values, all sequences of <= %d requests (post, keyvalues batch, delete, commit, new version, restart, schema): %d distinct states, depth %d",
-		mc.Fields, mc.MaxSteps, mcRes.Distinct, mcRes.Depth))
+	models = append(models, fmt.Sprintf("exhaustive Inv_C16_Coherent/Inv_C16_MergeRules: 2 ids x fields %v x %d values, all sequences of <= %d requests (post, keyvalues batch, delete, commit, new version, restart, schema): %d distinct states, depth %d",
+		mc.Fields, mc.NumVals, mc.MaxSteps, mcRes.Distinct, mcRes.Depth))
+	if mcRes2 != nil {
+		states += mcRes2.Distinct
+		trans += mcRes2.Generated
+		models = append(models, fmt.Sprintf("the same with 1 value and <= 4 requests: %d distinct states, depth %d", mcRes2.Distinct, mcRes2.Depth))
+	}
 
 	// the import-kv command of the RPC path (c16_rpc.go, specs/NJImport.tla)
 	nImport, nImportCmp := njRPCImport(c, run)
@@ -1359,8 +1485,10 @@ func checkC16(c *Ctx) int {
 
 	run.Set("states", states)
 	run.Set("transitions", trans)
-	run.Set("traces_validated_against_impl", int64(len(paths)+len(hists)))
-	run.Set("evaluations", int64(len(paths)+len(hists)))
+	run.Set("traces_validated_against_impl", int64(len(paths)+len(hists)+sr.scripts))
+	run.Set("evaluations", int64(len(paths)+len(hists)+sr.scripts))
+	run.Set("script_request_kinds", sr.kinds)
+	run.Set("script_steps_served_from_memory_besides_master_head", sr.servedSteps)
 	run.Set("comparisons", ncmp)
 	run.Set("requests", nreq)
 	run.Set("memory_vs_store_and_restart_checkpoints", ncheckpoints+int64(2*workers))
@@ -1376,12 +1504,14 @@ func checkC16(c *Ctx) int {
 	}
 	run.Set("tlc_model", models)
 	run.Set("exhaustive", false)
-	run.Set("rule", "a case is one behaviour of specs/NeuronJSON.tla replayed on the real server: (1) the decision table — TLC enumerates exhaustively every seeded state of one annotation x every first request x every second request (POST key plain / replace=true / conditionals, each field unmentioned / null / each value; DELETE) with the expected annotation (values, _user, old-or-fresh _time) after each request; each path runs under its own body id with a seeded concrete JSON value per abstract value (numbers, strings, arrays, nested objects, booleans), and GET key?show=all is compared after every request, at the committed parent (store path) and after a restart; (2) histories — TLC random-walks the full specification (POST key, POST keyvalues, seeding POST, DELETE, schema POST/DELETE, commit, new version, clean/kill restart) and prints the expected state and the expected keys / field counts / keyrange / exists- and equality-query results after every step; each history runs on its own repo, every step's predicted reads are compared, and at every new version (plus a closing one) the complete read set (key, keys, all, fields, counts, keyrange, keyrangevalues json/tar/protobuf, keyvalues, query in every form incl. regex, lists, AND/OR, onlyid, fields=, schemas) of the new head (in-memory path) is compared with its committed parent (store path), and at every restart with the pre-restart answers; distinct_nontrivial = distinct request sequences (incl. seed state)")
+	run.Set("rule", "a case is one behaviour of specs/NeuronJSON.tla replayed on the real server: (1) the decision table — TLC enumerates exhaustively every seeded state of one annotation x every first request x every second request (POST key plain / replace=true / conditionals, each field unmentioned / null / each value; DELETE) with the expected annotation (values, _user, old-or-fresh _time) after each request; each path runs under its own body id with a seeded concrete JSON value per abstract value (numbers, strings, arrays, nested objects, booleans), and GET key?show=all is compared after every request, at the committed parent (store path) and after a restart; (2) histories — TLC random-walks the full specification (POST key, POST keyvalues, seeding POST, DELETE, schema POST/DELETE, commit, new version, clean/kill restart) and prints the expected state and the expected keys / field counts / keyrange / exists- and equality-query results after every step; each history runs on its own repo, every step's predicted reads are compared, and at every new version (plus a closing one) the complete read set (key, keys, all, fields, counts, keyrange, keyrangevalues json/tar/protobuf, keyvalues, query in every form incl. regex, lists, AND/OR, onlyid, fields=, schemas) of the new head (in-memory path) is compared with its committed parent (store path), and at every restart with the pre-restart answers; (3) scripted DAG behaviours — the harness generates seeded scripts of request intentions (shapes: master and a branch diverge, are merged conflict-free and the merge child becomes the master head; a branch named in the inmemory configuration before it exists; committed versions held in memory by UUID; a json_schema that constrains field a, is deleted and changed by a child version; random), TLC executes each script on specs/NeuronJSON_script.tla (resolving each intention to an enabled request or skipping it, checking the invariants in every state) and prints the content of every version after every request with the expected keys / counts / key ranges / query table (integers, negatives, non-integral numbers, strings, integer / string / mixed lists, regular expressions, array-valued fields, AND / OR, existence) / ?fields= and ?show= projections; the server is (re)started with the inmemory configuration of the script, every request is replayed (incl. schema refusals, string->integer conversion, POST key/0, client-supplied _user/_time, ids above 2^63, POST /query, key/schema spellings) and after every request the predicted reads of the written version and of every version served from memory (all versions at DAG steps and restarts) are compared; at every restart the complete read set of every version (incl. GET fieldtimes where the specification says it is determined) is compared before/after — restarts change the inmemory configuration, so the same version is read through the incrementally maintained in-memory path, the store path and a freshly loaded in-memory copy; distinct_nontrivial = distinct request sequences (incl. seed state)")
 	run.Assume = []string{
 		"_time: the seeded old stamp vs a stamp written by the server is compared after every request; exact preservation / renewal of server-written stamps is compared in the decision table only (its second request is sent more than one second after the first; RFC3339 stamps have one-second resolution); _user identifies the request that last changed a value",
 		"body ids of one instance have the same number of digits (the store path lists keys lexicographically, the in-memory path numerically — documented)",
 		"stamps of a field that has no value, fieldtimes, and a null posted for a protected (conditionals) field are not constrained",
-		"equality-query results are predicted only for integer/string values that occur in no array of the same history; all other query forms are compared between the two paths only",
+		"in the decision table and the random-walk histories equality-query results are predicted only for integer/string values that occur in no array of the same history; in the scripted behaviours the query table is predicted from the value kinds (a value offers itself or its elements; a term matches if one of its scalars, or a string its regular expression matches, is offered); boolean query values, bodyid-only queries and values no term can equal (booleans, objects, nested / float / empty lists) are compared between the paths only",
+		"scripted behaviours: merges are conflict-free (no datum has two live unsuperseded entries) and join versions neither of which descends from the other; versions held in memory by UUID are committed; client stamps are supplied only for fields that have a value after the request and never together with conditionals; a request sequence the server's DAG rules refuse is an infrastructure error (C07's subject)",
+		"GET fieldtimes (in-memory path only) is compared across a restart only while no stamp of the database has been removed or replaced by an older one since it was loaded (then 'latest stamp seen' and 'latest stamp present' coincide)",
 	}
 	fmt.Printf("C16: %v; table %.1fs; %d requests, %d comparisons, %d checkpoints in %.1fs; violations=%d known=%v\n",
 		models, tableS, nreq, ncmp, ncheckpoints+int64(2*workers), since(t0), run.Violations(), run.KnownSeen())
